@@ -448,7 +448,190 @@ def gen_c02():
     return "\n".join(out) + "\n"
 
 
-GENERATORS = {"C02Source.lean": gen_c02}
+# ------------------------------------------------------------------ round 6: decision tables by PROBING the live functions
+def _probe_part(S, musical):
+    """a real part with a 6/8 (numerator in MUSICAL_BEATS) and a 7/8 (not) signature whose musical beats are set to a
+    sentinel, in the given mode"""
+    p = S.Part("P0", quarter_duration=4)
+    a, b = S.TimeSignature(6, 8), S.TimeSignature(7, 8)
+    p.add(a, 0)
+    p.add(b, 24)
+    p.add(S.Note(step="C", octave=4, voice=1, id="n0"), 0, 48)
+    a.musical_beats = b.musical_beats = 99
+    p._use_musical_beat = musical
+    return p, a, b
+
+
+def switch_rows():
+    """(op, musical before, argument kind) -> (musical after, effect, raised) for the three musical-beat calls.
+    op 0 use_musical_beat / 1 use_notated_beat / 2 set_musical_beat_per_ts; argument 0 `{}` / 1 a non-empty dict / 2 not a
+    dict / 3 no argument; effect 0 musical beats untouched / 1 set from the given table (defaults for missing keys) / 2 all
+    set to the defaults"""
+    import warnings
+
+    import partitura.score as S
+
+    rows = []
+    names = ["use_musical_beat", "use_notated_beat", "set_musical_beat_per_ts"]
+    for op, nm in enumerate(names):
+        for musical in (False, True):
+            for ak in ((3,) if op == 1 else (0, 1, 2, 3)):
+                p, a, b = _probe_part(S, musical)
+                args = {0: ({},), 1: ({"6/8": 5},), 2: ([("6/8", 5)],), 3: ()}[ak]
+                raised = False
+                with warnings.catch_warnings():
+                    warnings.simplefilter("ignore")
+                    try:
+                        getattr(p, nm)(*args)
+                    except TypeError:
+                        raised = True
+                got = (a.musical_beats, b.musical_beats)
+                d6 = S.MUSICAL_BEATS.get(6, 6)
+                if got == (99, 99):
+                    eff = 0
+                elif got == (5, 7) and ak == 1:
+                    eff = 1
+                elif got == (d6, 7):
+                    eff = 2
+                else:
+                    raise Unexpected("%s(%r) in mode %r left the musical beats %r" % (nm, args, musical, got))
+                rows.append((op, musical, ak, bool(p._use_musical_beat), eff, raised))
+    return rows
+
+
+def assign_rows():
+    """which value a signature gets: (key in the table, numerator in MUSICAL_BEATS) -> 0 the table's / 1 MUSICAL_BEATS' / 2
+    the numerator - for set_musical_beat_per_ts, and (numerator in MUSICAL_BEATS) -> 1 / 2 for TimeSignature();
+    plus the keys the function looks up for a 7/16 and a 12/8 signature"""
+    import partitura.score as S
+
+    if 6 not in S.MUSICAL_BEATS or 7 in S.MUSICAL_BEATS or S.MUSICAL_BEATS[6] in (6, 55):
+        raise Unexpected("MUSICAL_BEATS no longer has 6 (or has 7): the probe signatures do not separate the cases")
+    rows = []
+    for in_tbl in (False, True):
+        p, a, b = _probe_part(S, False)
+        p.set_musical_beat_per_ts({"6/8": 55, "7/8": 66} if in_tbl else {"5/8": 44})
+        for in_def, ts, given in ((True, a, 55), (False, b, 66)):
+            v = ts.musical_beats
+            which = 0 if (in_tbl and v == given) else 1 if (in_def and v == S.MUSICAL_BEATS[6]) else 2 if v == ts.beats else None
+            if which is None:
+                raise Unexpected("set_musical_beat_per_ts gave %r to %d/%d" % (v, ts.beats, ts.beat_type))
+            rows.append((in_tbl, in_def, which))
+    init = []
+    for in_def, n in ((True, 6), (False, 7)):
+        v = S.TimeSignature(n, 8).musical_beats
+        which = 1 if (in_def and v == S.MUSICAL_BEATS[6]) else 2 if v == n else None
+        if which is None:
+            raise Unexpected("TimeSignature(%d, 8).musical_beats = %r" % (n, v))
+        init.append((in_def, which))
+
+    class Rec(dict):
+        asked = []
+
+        def __contains__(self, k):
+            Rec.asked.append(k)
+            return dict.__contains__(self, k)
+
+    p = S.Part("P0")
+    p.add(S.TimeSignature(7, 16), 0)
+    p.add(S.TimeSignature(12, 8), 8)
+    p.set_musical_beat_per_ts(Rec())
+    return rows, init, [str(k) for k in Rec.asked]
+
+
+def qd_probe():
+    """quarter_durations(start, end): is a change AT `start` / AT `end` listed?  and the decision table of
+    set_quarter_duration: (value stored just before t: none / equal / different, entry stored at t: none / equal /
+    different) -> 0 nothing / 1 insert / 2 replace"""
+    import partitura.score as S
+
+    p = S.Part("P0", quarter_duration=4)
+    p.set_quarter_duration(10, 5)
+    p.set_quarter_duration(20, 6)
+    times = lambda a, b: [int(r[0]) for r in p.quarter_durations(a, b)]
+    if times(None, None) != [0, 10, 20]:
+        raise Unexpected("quarter_durations() = %r" % (times(None, None),))
+    start_incl = 10 in times(10, None)
+    end_incl = 10 in times(None, 10)
+    if times(10, None) != ([10, 20] if start_incl else [20]) or times(None, 10) != ([0, 10] if end_incl else [0]):
+        raise Unexpected("quarter_durations bounds")
+    rows = []
+    for pk in (0, 1, 2):
+        for ak in (0, 1, 2):
+            q = S.Part("P0", quarter_duration=4)
+            ts = ([] if pk == 0 else [5]) + ([] if ak == 0 else [10]) + [20]
+            vs = ([] if pk == 0 else [7 if pk == 1 else 3]) + ([] if ak == 0 else [7 if ak == 1 else 3]) + [9]
+            q._quarter_times, q._quarter_durations = list(ts), list(vs)
+            q.set_quarter_duration(10, 7)
+            t2, v2 = [int(x) for x in q._quarter_times], [int(x) for x in q._quarter_durations]
+            pre = len(ts) - 1 - (0 if ak == 0 else 1)
+            if (t2, v2) == (ts, vs):
+                act = 0
+            elif ak == 0 and t2 == ts[:pre] + [10] + ts[pre:] and v2 == vs[:pre] + [7] + vs[pre:]:
+                act = 1
+            elif ak != 0 and t2 == ts and v2 == vs[:pre] + [7] + vs[pre + 1:]:
+                act = 2
+            else:
+                raise Unexpected("set_quarter_duration(10, 7) on %r/%r gave %r/%r" % (ts, vs, t2, v2))
+            rows.append((pk, ak, act))
+    return start_incl, end_incl, rows
+
+
+API_FALLBACK = {
+    "switch": [(0, False, 0, True, 0, False), (0, False, 1, True, 1, False), (0, False, 2, True, 0, True), (0, False, 3, True, 0, False),
+               (0, True, 0, True, 0, False), (0, True, 1, True, 0, False), (0, True, 2, True, 0, False), (0, True, 3, True, 0, False),
+               (1, False, 3, False, 0, False), (1, True, 3, False, 2, False),
+               (2, False, 0, False, 2, False), (2, False, 1, False, 1, False), (2, False, 2, False, 0, True), (2, False, 3, False, 2, False),
+               (2, True, 0, True, 2, False), (2, True, 1, True, 1, False), (2, True, 2, True, 0, True), (2, True, 3, True, 2, False)],
+    "assign": [(False, True, 1), (False, False, 2), (True, True, 0), (True, False, 0)],
+    "init": [(True, 1), (False, 2)],
+    "keys": ["7/16", "12/8"],
+    "qd": (True, False, [(0, 0, 1), (0, 1, 0), (0, 2, 2), (1, 0, 0), (1, 1, 0), (1, 2, 2), (2, 0, 1), (2, 1, 0), (2, 2, 2)]),
+}
+
+
+def gen_c02api():
+    from translate import lstr
+
+    data = dict(API_FALLBACK)
+    ok, why = True, ""
+    try:
+        data["switch"] = switch_rows()
+        data["assign"], data["init"], data["keys"] = assign_rows()
+        data["qd"] = qd_probe()
+    except Exception as e:
+        ok, why = False, "%s: %s" % (type(e).__name__, e)
+    si, ei, qrows = data["qd"]
+    out = ["/- GENERATED by harness/translate_c02.py by PROBING the live functions (partitura/score.py: Part.use_musical_beat,",
+           "   use_notated_beat, set_musical_beat_per_ts, TimeSignature.__init__, Part.quarter_durations,",
+           "   Part.set_quarter_duration).  Do not edit. -/",
+           "namespace Gen.C02Api\n",
+           "/-- the probes ran as expected%s -/" % ("" if ok else " — NO: " + why.replace("-/", "- /")),
+           "def probesOk : Bool := %s\n" % _b(ok),
+           "/-- (op, musical before, argument kind, musical after, effect, raised): op 0 use_musical_beat / 1 use_notated_beat /",
+           "    2 set_musical_beat_per_ts; argument 0 `{}` / 1 non-empty dict / 2 not a dict / 3 omitted; effect 0 musical beats",
+           "    untouched / 1 set from the table given / 2 all set to the defaults -/",
+           "def switchRows : List (Nat × Bool × Nat × Bool × Nat × Bool) := [%s]\n" % ", ".join(
+               "(%d, %s, %d, %s, %d, %s)" % (o, _b(m), a, _b(m2), e, _b(r)) for o, m, a, m2, e, r in data["switch"]),
+           "/-- set_musical_beat_per_ts on one signature: (key in the table, numerator in MUSICAL_BEATS) -> 0 the table's value /",
+           "    1 MUSICAL_BEATS[numerator] / 2 the numerator -/",
+           "def assignRows : List (Bool × Bool × Nat) := [%s]\n" % ", ".join("(%s, %s, %d)" % (_b(a), _b(b), w) for a, b, w in data["assign"]),
+           "/-- TimeSignature(beats, beat_type).musical_beats: (numerator in MUSICAL_BEATS) -> 1 / 2 as above -/",
+           "def initRows : List (Bool × Nat) := [%s]\n" % ", ".join("(%s, %d)" % (_b(a), w) for a, w in data["init"]),
+           "/-- the keys looked up in the table for a 7/16 and a 12/8 signature -/",
+           "def keysAsked : List String := [%s]\n" % ", ".join(lstr(k) for k in data["keys"]),
+           "/-- quarter_durations(start, end): a change AT start / AT end is listed -/",
+           "def qdStartInclusive : Bool := %s" % _b(si),
+           "def qdEndInclusive : Bool := %s\n" % _b(ei),
+           "/-- set_quarter_duration(t, q): (value stored just before t: 0 none / 1 = q / 2 other, entry stored at t: 0 none /",
+           "    1 = q / 2 other) -> 0 nothing / 1 insert (t, q) / 2 replace the entry at t -/",
+           "def setQDRows : List (Nat × Nat × Nat) := [%s]\n" % ", ".join("(%d, %d, %d)" % r for r in qrows),
+           "end Gen.C02Api"]
+    return "\n".join(out) + "\n"
+
+
+GENERATORS = {"C02Source.lean": gen_c02, "C02Api.lean": gen_c02api}
 
 if __name__ == "__main__":
     print(gen_c02())
+    print(gen_c02api())
